@@ -68,6 +68,7 @@ def one_repeat(case):
     cont = simcases.SIMS[name][0] == "cont"
     out = []
     info = {"events": 0}
+    xproc.ENTROPY_CALLS[0] = 0
     for full in (False, True):
         d1, s1 = xproc.run_real(case, full, case["seed"])
         d2, s2 = xproc.run_real(case, full, case["seed"])
@@ -83,6 +84,11 @@ def one_repeat(case):
                          "return_full_data=%r: the global generators end in different states on identical calls "
                          "(%s / %s / %s)" % (full, s1, s2, s3), case))
             return out, info
+    if xproc.ENTROPY_CALLS[0]:
+        out.append(V("entropy", "%s/uses-os-entropy" % name,
+                     "the simulator asked the operating system for entropy %d time(s) (os.urandom / SystemRandom / "
+                     "default_rng): randomness must come from random and numpy.random only" % xproc.ENTROPY_CALLS[0], case))
+        return out, info
     if cont:
         import random
         random.seed(case["seed"]); np.random.seed(case["seed"])
